@@ -43,3 +43,14 @@ Theorem C20_reinit_ignores_foreign_rounds :
   reinit_dkg now h (Some (with_msgs rd (l ++ m :: r))) = reinit_dkg now h (Some (with_msgs rd (l ++ r))).
 Proof. exact reinit_ignores_foreign_rounds. Qed.
 Print Assumptions C20_reinit_ignores_foreign_rounds.
+
+(* the state part is REFUTED for dumps that contain a message the original nodes refused for its
+   signature (known finding reinit-replays-unverified-message): while verification is switched off -
+   as it is for the whole replay of a reinitialisation - the signature of a message is never looked
+   at, so a forged decline or error report lying on the board is applied at reinitialisation although
+   it had no effect on the original ceremony.  (The harness replays the witness on real clusters.) *)
+Theorem C20_replay_does_not_verify :
+  forall now st m s, ns_skip st = true ->
+  process_message now {| h_st := st; h_tr := [] |} (with_sig m s) = process_message now {| h_st := st; h_tr := [] |} m.
+Proof. exact unverified_replay. Qed.
+Print Assumptions C20_replay_does_not_verify.
